@@ -66,7 +66,8 @@ def generate(ctx, plans):
     for name, c, sim in plans:
         with ctx.timed("gen-" + name):
             if sim:
-                g = tlc.run("ArmMC", cfg_text=c, simulate="num=%d" % sim[0], depth=sim[1] + 1, seed=ctx.seed + 3, workers=4,
+                g = tlc.run("ArmMC", cfg_text=c, simulate="num=%d" % (sim[0] * (4 if ctx.quick else 1)), depth=sim[1] + 1, seed=ctx.seed + 3,
+                            workers=1 if ctx.quick else 4,
                             timeout=900)
             else:
                 g = tlc.run("ArmMC", cfg_text=c, timeout=3000, heap="8g")
@@ -116,6 +117,8 @@ def run(ctx):
     if not ctx.quick:
         plans.append(("depth3-all", cfg(3, "NoIK", "gen"), None))
         plans.append(("depth4-kinematic-ops", cfg(4, "KinOps", "gen"), None))
+    from vf import armrun
+    armrun.known_probes(ctx)
     allg = generate(ctx, plans)
     mk = makers(ctx)
     with ctx.timed("replay"):
